@@ -191,6 +191,8 @@ class Terms(object):
 
     def _decided(self, t):
         """Truth value of condition term ``t`` under the hypotheses."""
+        if t[0] == "const":
+            return bool(t[1])
         for h, v in self.hyps:
             if h == t:
                 return v
@@ -852,6 +854,13 @@ class Terms(object):
                 # x[0] and the first target of ``a, b = x`` are one value
                 n = self._arity(base)
                 return self._comp(base, idx[1], n if n is not None else -1)
+            if base[0] == "tuple" and idx[0] == "slice" and \
+                    idx[3] == ("const", None) and all(
+                        x[0] == "const" and (x[1] is None or (
+                            isinstance(x[1], int) and x[1] >= 0))
+                        for x in idx[1:3]):
+                # a constant slice of a tuple display
+                return ("tuple",) + tuple(base[1:][idx[1][1]:idx[2][1]])
             if idx == ("elem", base):
                 # d[k] for k iterating d itself: the value of that entry
                 return ("comp", ("elem", ("items", base)), 1)
@@ -1041,6 +1050,8 @@ class Terms(object):
                     "six",):
                 return (_ITEMS[f.attr], args[0])
             if f.attr == "get" and len(args) in (1, 2) and not kws:
+                if len(args) == 2 and args[1] == ("const", None):
+                    args = args[:1]       # None is the default default
                 return ("get", T(f.value, node, env)) + args
         if isinstance(f, ast.Name) and f.id == "getattr" and \
                 len(args) == 2 and not kws and args[1][0] == "const" and \
